@@ -76,6 +76,75 @@ class MsgProp:
     def extra_judge(self, rep, cfg, op, a, m):
         pass
 
+    # ---- the same payloads through AisParser::parse -------------------------------------------
+    def line_stage(self, rep, cfg, rng, m_ops, model_m):
+        """A sample of the M-op payloads is armored and sent as sentences (whole, or as a group of
+        fragments with a rejected duplicate in between) through ONE parser with decoding on, between
+        lines whose payload does not decode; the decoded message must be what the proved model gives
+        for the bare payload (the M op), on this property's projection."""
+        from . import core
+        from .props_sent import L
+        pairs = [(o, m) for o, m in zip(m_ops, model_m) if o.startswith("M ") and o != "M -"]
+        if not pairs:
+            return
+        pairs = rng.sample(pairs, min(240, len(pairs)))
+        ops, marks = [], []
+        for k, (mop, mm) in enumerate(pairs):
+            if k % 8 == 0:
+                ops.append("N 0")
+            bs = bytes.fromhex(mop.split(" ")[1])
+            bits = ais.bytes_to_bits(bs)
+            # trailing zero bits need not be transmitted (they come back as padding)
+            trim, maxtrim = 0, rng.choice([0, 0, 1, 2, 3, 4, 5])
+            while trim < maxtrim and trim < len(bits) and bits[-1 - trim] == 0:
+                trim += 1
+            payload, fill = ais.armor(bits[:len(bits) - trim] if trim else bits)
+            if len(payload) > 380:
+                continue
+            r = rng.random()
+            if r < 0.35:
+                bad = rng.choice([b"F0000000", b"I", b"1", b"5000", b"8", b"0", b"1~~~", payload[:3] if len(payload) > 3 else b"1"])
+                ops.append(L(ais.sentence(bad, fill=0), 0, 1))
+            if rng.random() < 0.6 or len(payload) < 4:
+                ops.append(L(ais.sentence(payload, fill=fill), 0, 1))
+            else:
+                n = rng.choice([2, 3])
+                cut = sorted(rng.sample(range(1, len(payload)), n - 1))
+                pieces = [payload[a:b] for a, b in zip([0] + cut, cut + [len(payload)])]
+                mid = rng.choice([None, 1, 5])
+                for i, pc in enumerate(pieces):
+                    ops.append(L(ais.sentence(pc, fill=fill if i == n - 1 else 0, nf=n, fn=i + 1, mid=mid), 0, 1))
+                    if i < n - 1 and rng.random() < 0.4:
+                        # a repeated or stray fragment: rejected, and must leave nothing behind
+                        j = rng.choice([i + 1, i + 3]) if i > 0 else i + 3
+                        ops.append(L(ais.sentence(pc, fill=0, nf=max(n, j), fn=j, mid=mid), 0, 1))
+            # what unarmoring hands to the decoder: ceil(6 * chars / 8) bytes, the declared fill bits zeroed
+            exp = bs + bytes((6 * len(payload) + 7) // 8 - len(bs))
+            marks.append((len(ops) - 1, m_op(exp)))
+        impl = core.run_impl(cfg, ops)
+        exp_model = core.run_model(cfg, [mo for _, mo in marks])
+        for (idx, mop), mm in zip(marks, exp_model):
+            a = impl[idx]
+            rep.evaluations += 1
+            rep.count("lines:" + a.split(" ")[0])
+            if a.startswith("C ") and " msg=" in a:
+                msg = a.split(" msg=", 1)[1].rsplit(" conv=", 1)[0]
+                synth = "err" if msg == "none" else "ok " + msg
+            elif a.startswith("E nmea"):
+                synth = "err"
+            else:
+                synth = a.split(" ")[0]
+            pa, pm = self.project(mop, synth), self.project(mop, mm)
+            if pa != pm:
+                if self.classify(mop, synth, mm) is not None:
+                    continue
+                start = max(i for i in range(idx + 1) if ops[i].startswith("N "))
+                rep.violation(f"{self.name}: through AisParser::parse (decode on, history of {idx - start} lines) the decoded message "
+                              f"differs from the proved model's decoding of the same payload: impl={pa[:200]!r} model={pm[:200]!r}",
+                              {"cfg": cfg, "ops": ops[start:idx + 1], "impl": a, "model": mm})
+                return
+            rep.nontrivial.add(ops[idx])
+
 
 def m_op(bs):
     return "M " + hexs(bs)
@@ -207,6 +276,111 @@ def coord_cases(rng, tier):
     yield ("coord:15", ops)
 
 
+# ---------------------------------------------------------------- exhaustive field sweeps (X ops)
+
+KEYNAME = {"sog": "speed_over_ground", "lon": "longitude", "lat": "latitude", "cog": "course_over_ground", "draught": "draught"}
+# type -> layout fields in the order of the proved table Spec.Scaled.tXX
+SWEEP_ORDER = {1: ["sog", "lon", "lat", "cog"], 2: ["sog", "lon", "lat", "cog"], 3: ["sog", "lon", "lat", "cog"],
+               4: ["lon", "lat"], 11: ["lon", "lat"], 5: ["draught"], 9: ["sog", "lon", "lat", "cog"],
+               17: ["lon", "lat"], 18: ["sog", "lon", "lat", "cog"], 19: ["sog", "lon", "lat", "cog"],
+               21: ["lon", "lat"], 27: ["lon", "lat", "sog", "cog"]}
+SWEEP_BYTES = {5: 53, 19: 39, 21: 34, 27: 12, 17: 15}
+SENTINEL = {("lon", 28): 108600000, ("lat", 27): 54600000, ("lon", 18): 108600, ("lat", 17): 54600,
+            ("sog", 10): 1023, ("cog", 12): 3600, ("sog", 6): 63, ("cog", 9): 511}
+
+
+def sweep_payload(t, off, w, raw):
+    n = SWEEP_BYTES.get(t, 21)
+    b = bytearray(((i * 37) % 256) ^ 0x5A for i in range(n))
+    b[0] = (t << 2) & 0xFF
+    for i in range(w):
+        p = off + i
+        if (raw >> (w - 1 - i)) & 1:
+            b[p // 8] |= 0x80 >> (p % 8)
+        else:
+            b[p // 8] &= ~(0x80 >> (p % 8)) & 0xFF
+    return bytes(b)
+
+
+def sweep_fields(rep, tier, cfgs, owner):
+    """Every raw value of every scaled field (quick: fields up to 18 bits; thorough: the 27/28-bit
+    coordinates too) through the real messages::parse, folded into a hash of (presence, f32 bits) and
+    compared chunk by chunk with the same fold over the proved specification (ScaledSpec.renderRaw =
+    ScaledSpec.render, Layouts.render_eq_renderRaw); small fields also through the whole model
+    (parseMessage).  A differing chunk is bisected to the first raw value and replayed as an M op.
+    owner: "C10" reports wrong values / values missing, "C11" reports presence where absence is specified."""
+    from concurrent.futures import ThreadPoolExecutor
+    from . import core
+    jobs = []   # (cfg, type, fld, off, w, mode, lo, hi)
+    for t, order in SWEEP_ORDER.items():
+        lay = {n: (o, w) for (n, o, w) in ais.LAYOUTS[t]}
+        for idx, fld in enumerate(order):
+            off, w = lay[fld]
+            if w > 18 and tier != "thorough":
+                continue
+            for cfg in (cfgs if w <= 18 else ["std"]):
+                step = 1 << 22
+                for lo in range(0, 1 << w, step):
+                    jobs.append((cfg, t, idx, fld, off, w, "r", lo, min(1 << w, lo + step)))
+                if w <= 12:
+                    jobs.append((cfg, t, idx, fld, off, w, "m", 0, 1 << w))
+    def opline(j):
+        cfg, t, idx, fld, off, w, mode, lo, hi = j
+        return f"X {mode} {t} {idx} {KEYNAME[fld]} {off} {w} {lo} {hi}"
+    # distribute over workers, per cfg
+    nworkers = 16
+    buckets = {}
+    for k, j in enumerate(jobs):
+        buckets.setdefault((j[0], k % nworkers), []).append(j)
+    def work(item):
+        (cfg, _), js = item
+        ops = [opline(j) for j in js]
+        return js, core.run_impl(cfg, ops), core.run_model(cfg, ops)
+    with ThreadPoolExecutor(nworkers) as ex:
+        results = list(ex.map(work, buckets.items()))
+    for js, impl, model in results:
+        for j, a, m in zip(js, impl, model):
+            cfg, t, idx, fld, off, w, mode, lo, hi = j
+            rep.evaluations += hi - lo
+            rep.count(f"sweep:{mode}:w{w}", hi - lo)
+            if not m.startswith("ok "):
+                rep.violation(f"{owner}: the model driver refuses the sweep {opline(j)!r} ({m!r}): the field is not where the proved table puts it",
+                              {"cfg": cfg, "ops": [opline(j)], "impl": a, "model": m})
+                continue
+            if a == m:
+                want_absent = 1 if (fld, w) in SENTINEL and lo <= SENTINEL[(fld, w)] < hi else 0
+                if int(a.split(" ")[2]) != want_absent:
+                    rep.violation(f"{owner}: sweep {opline(j)!r}: {a.split(' ')[2]} raw values are reported absent, the 'not available' code alone should be",
+                                  {"cfg": cfg, "ops": [opline(j)], "impl": a, "model": m})
+                rep.nontrivial.add(opline(j))
+                continue
+            # bisect to the first differing raw value
+            l, h = lo, hi
+            while h - l > 1:
+                mid = (l + h) // 2
+                op = f"X {mode} {t} {idx} {KEYNAME[fld]} {off} {w} {l} {mid}"
+                if core.run_impl(cfg, [op])[0] != core.run_model(cfg, [op])[0]:
+                    h = mid
+                else:
+                    l = mid
+            raw = l
+            mop = m_op(sweep_payload(t, off, w, raw))
+            ia, ma = core.run_impl(cfg, [mop])[0], core.run_model(cfg, [mop])[0]
+            key = KEYNAME[fld]
+            iv = parse_answer(ia).get("kv", {}).get(key, "?") if parse_answer(ia)["cls"] == "ok" else parse_answer(ia)["cls"]
+            mv = parse_answer(ma).get("kv", {}).get(key, "?") if parse_answer(ma)["cls"] == "ok" else parse_answer(ma)["cls"]
+            if iv == mv:
+                rep.violation(f"{owner}: sweep {opline(j)!r} differs at raw {raw} but the single payload agrees: the sweep correspondence itself broke",
+                              {"cfg": cfg, "ops": [f"X {mode} {t} {idx} {key} {off} {w} {raw} {raw + 1}", mop], "impl": ia, "model": ma})
+                continue
+            c11_kind = (mv == "none" and iv != "none")
+            if (owner == "C11") == c11_kind or iv in ("panic", "err", "abort"):
+                what = (f"{key} of type {t} at raw {raw}: reported {iv}, specified {mv}")
+                rep.violation(f"{owner}: exhaustive sweep: {what}", {"cfg": cfg, "ops": [mop], "impl": ia, "model": ma})
+            else:
+                rep.count("sweep:left-to-" + ("C11" if c11_kind else "C10"))
+
+
 class C10(MsgProp):
     id = "C10"
     name = "coordinate/speed/course scaling"
@@ -215,7 +389,12 @@ class C10(MsgProp):
             "up to 12 bits wide), jointly with random neighbours; projection = f32 keys compared bit-for-bit "
             "(to_bits) with the model's exact (raw, scale) pair evaluated in IEEE single precision; additionally the "
             "implementation's f32 is checked against raw/600000, raw/600, raw/10 in exact rational arithmetic "
-            "(<= 2 ulp: the i32->f32 conversion and the division each round once; type 27: 3 ulp). non-trivial = distinct payload decoded ok")
+            "(<= 2 ulp: the i32->f32 conversion and the division each round once; type 27: 3 ulp). "
+            "X ops (exhaustive sweeps): every raw value of every speed/course/draught field and of the 17/18-bit "
+            "coordinates of types 17 and 27 in all builds (thorough: also all 2^28 longitudes and 2^27 latitudes of "
+            "types 1-4, 9, 11, 18, 19, 21), through the real messages::parse, hashed and compared with the proved "
+            "specification function; fields up to 12 bits also through the whole model. "
+            "non-trivial = distinct payload decoded ok / distinct sweep chunk in agreement")
 
     def project(self, op, ans):
         return proj_keys(ans, lambda k, kind, v: base(k) in F32)
@@ -249,6 +428,9 @@ class C10(MsgProp):
 
     def cases(self, tier, rng):
         yield from coord_cases(rng, tier)
+
+    def extra_run(self, rep, tier, cfgs):
+        sweep_fields(rep, tier, cfgs, "C10")
 
     # exact rational check of the implementation's own float against the spec scaling
     SPEC = {  # kind -> key -> (layout type, field, signed width or 0, num, den)
@@ -310,13 +492,18 @@ class C11(MsgProp):
     name = "'not available' sentinels"
     rule = ("M ops: every optional numeric field of every type at its sentinel, sentinel+-1, the other resolution's "
             "sentinel, extremes and random values; projection = the optional keys (presence, and the value when present). "
-            "non-trivial = distinct payload decoded ok")
+            "X ops (exhaustive sweeps, see C10): for every scaled optional field the number of raw values reported absent "
+            "must be exactly one, the specified code (quick: fields up to 18 bits, all builds; thorough: the 27/28-bit coordinates too). "
+            "non-trivial = distinct payload decoded ok / distinct sweep chunk in agreement")
 
     def project(self, op, ans):
         return proj_keys(ans, lambda k, kind, v: base(k) in OPTINT or base(k) in (F32 - {"draught"}))
 
     def cases(self, tier, rng):
         yield from coord_cases(rng, tier)
+
+    def extra_run(self, rep, tier, cfgs):
+        sweep_fields(rep, tier, cfgs, "C11")
 
 
 # ---------------------------------------------------------------- C12
